@@ -254,9 +254,14 @@ register("C03", title="serialization is complete", engine="irc-history-engine", 
          technique="differential: instance vs. Unmarshal(Marshal(instance)), structure walk + behavioural continuation")
 register("C17", title="session lifecycle", engine="irc-history-engine", pkg="./internal/ircserver",
          parts=[{"test": "^TestVerifC17$", "children": {"quick": 8, "thorough": 16}, "cases": {"quick": 30, "thorough": 400}},
-                {"test": "^TestVerifIRC$", "children": {"quick": 8, "thorough": 16}, "cases": {"quick": 150, "thorough": 3000}}],
+                {"test": "^TestVerifIRC$", "children": {"quick": 8, "thorough": 16}, "cases": {"quick": 150, "thorough": 3000}},
+                {"pkg": ".", "test": "^TestVerifC17API$", "children": {"quick": 1, "thorough": 4}, "cases": {"quick": 10, "thorough": 100}},
+                {"cluster": True, "children": {"quick": 1, "thorough": 4}, "cases": {"quick": 1, "thorough": 3}, "race": {"quick": False, "thorough": False},
+                 "timeout": {"quick": 500, "thorough": 2400}}],
          timeout={"quick": 300, "thorough": 1800}, level="exploration",
-         rule="(a) after every prefix of every seeded history GetSession is asked for every past/present/future session id and neighbours; "
+         rule="(d) HTTP mapping on an in-process node: ids newer than anything applied are never answered 404, deleted sessions are; three real binaries: a "
+              "session created a moment ago (and every live sender session during SIGSTOP/SIGKILL fault rounds) is never answered 404 by any node; "
+              "(a) after every prefix of every seeded history GetSession is asked for every past/present/future session id and neighbours; "
               "(b) expiry sweep over sessions with last activity on both sides of the threshold (ages within 60s of it not asserted); "
               "(c) after-the-end monitor on the shared engine. evaluations = lookups + sweep assertions + entries",
          floor={"quick": 5000, "thorough": 100000},
@@ -309,7 +314,8 @@ register("C09", title="LevelDB store honours LogStore / StableStore", pkg="./int
 
 
 register("C19", title="time safeguard", pkg="./internal/timesafeguard",
-         parts=[{"test": "^TestVerifC19$", "children": {"quick": 8, "thorough": 16}, "cases": {"quick": 60000, "thorough": 1500000}}],
+         parts=[{"test": "^TestVerifC19$", "children": {"quick": 8, "thorough": 16}, "cases": {"quick": 60000, "thorough": 1500000}},
+                {"test": "^TestVerifC19Real$", "children": {"quick": 4, "thorough": 16}, "cases": {"quick": 12, "thorough": 60}}],
          timeout={"quick": 300, "thorough": 1800}, level="exploration",
          rule="synthetic measurements generated from a true clock offset (both signs, microseconds to hours, values within 1ms of the 2s election "
               "timeout), request and response delays and 0-4 peers of which some do not answer, handed to synchronizedWithNetwork; oracle independent of "
@@ -317,7 +323,9 @@ register("C19", title="time safeguard", pkg="./internal/timesafeguard",
               "#answering, #offending, within 1ms of the threshold, safeguard disabled)",
          floor={"quick": 100000, "thorough": 1000000},
          technique="oracle over generated measurements (tight-bound model), one-sided where the code is deliberately coarser",
-         level_note="that main() calls the safeguard before raft starts is observed only by the real-binary scenarios of C05")
+         level_note="layer 2 runs the real measurement path (SynchronizedWithNetwork / SynchronizedWithMasterAndNetwork) against TLS status servers with skewed "
+                    "clocks, delaying handlers and unreachable peers, with the one-sided oracle only; that main() calls the safeguard before raft starts is "
+                    "exercised (not asserted) by the real-binary scenarios of C05, which run with the safeguard enabled")
 register("C18", title="codecs round-trip",
          parts=[{"pkg": "./internal/raftstore", "test": "^TestVerifC18$", "children": {"quick": 8, "thorough": 16}, "cases": {"quick": 15000, "thorough": 300000}},
                 {"pkg": "./internal/outputstream", "test": "^TestVerifC18Batch$", "children": {"quick": 4, "thorough": 8}, "cases": {"quick": 10000, "thorough": 300000}}],
